@@ -82,6 +82,9 @@ def norm_map(term):
             if len(t[2]) == 1 and name.startswith("std::collections::hash_map::OccupiedEntry::") \
                     and name.endswith(("::get", "::get_mut", "::into_mut")):
                 return mir.subst(t[2][0], f)
+            # `opt.take()` yields the value the option held: for provenance it IS that value
+            if len(t[2]) == 1 and name == "std::option::Option::take":
+                return mir.subst(t[2][0], f)
         return None
     return mir.subst(term, f)
 
@@ -130,10 +133,13 @@ def _filtered_ok(facts, value):
 def order_time_guards(ctx):
     b = ctx.fibody(name="update_from_order_snapshot", self_adt=ORDERS, trait=OM)
     n = 0
+    expanded = []
     for bi, si, path, value, s in b.stores():
+        for g2, v2 in b.expand_term(b.guard(bi), value):
+            expanded.append((bi, si, path, v2, s, g2))
+    for bi, si, path, value, s, g in expanded:
         if not (atoms.ends_with(path, "state") and _tracked(path)):
             continue
-        g = b.guard(bi)
         # which tracked states can this store overwrite?
         prev = set()
         unknown = False
@@ -151,7 +157,13 @@ def order_time_guards(ctx):
         if not _reported(value):
             continue  # re-stores tracked data only
         n += 1
-        ctrl = atoms.guard_implies(ctx.facts, b, g, lambda k, x: k == "cmp" and _time_fact(x))
+        def time_or_nothing_held(k, x):
+            if k == "cmp":
+                return _time_fact(x)
+            # explicit form of `.is_none_or(..)`: the in-flight cancel holds no exchange-confirmed data yet
+            return k == "atom" and x[0] == "is" and x[2] == frozenset(["None"]) and _tracked(x[1]) and \
+                render(norm_map(x[1])).endswith(".state.as:CancelInFlight.0.order")
+        ctrl = atoms.guard_implies(ctx.facts, b, g, time_or_nothing_held)
         filt = _filtered_ok(ctx.facts, value)
         anchor = "Orders::update_from_order_snapshot:(%s<-%s)" % ("|".join(sorted(prev)) or "?", _report_state(g))
         ctx.check(anchor, ctrl or filt,
